@@ -76,6 +76,51 @@ theorem C03_capacity_yank (S : Segmenter) (U : UData) (t : Text) (n : Nat) (lb l
       obtain ⟨hb, _⟩ := splitAtByte_some hs
       simp [hb, blen_yankText] at hfit ⊢; omega
 
+/-- `yank_pop` with a fixed capacity (after the repair of D44): either it refuses BEFORE anything is removed
+    (`None`: nothing changes, nothing is notified), or it answers `Some` and the new text fits. -/
+theorem C03_capacity_yankPop (S : Segmenter) (U : UData) (k : Nat) (t : Text) (lb lb' : LB)
+    (r : Option Bool) (ns : List Notif) (hfix : lb.canGrow = false)
+    (h : LB.yankPop S U k t lb = .ok (r, lb', ns)) :
+    (r = none ∧ lb' = lb ∧ ns = []) ∨ (r.isSome = true ∧ blen lb'.buf ≤ lb.cap) := by
+  unfold LB.yankPop at h
+  by_cases h1 : k > lb.pos
+  · simp [LM.bind_apply, LM.get, h1, LM.panic] at h
+  by_cases h2 : k > lb.len
+  · simp [LM.bind_apply, LM.get, h1, h2, LM.panic] at h
+  by_cases ht : lb.mustTruncate (lb.len - k + blen t) = true
+  · simp [LM.bind_apply, LM.get, h1, h2, ht, LM.pure_apply] at h
+    obtain ⟨rfl, rfl, rfl⟩ := h
+    exact Or.inl ⟨rfl, rfl, rfl⟩
+  · right
+    have hfit : blen lb.buf - k + blen t ≤ lb.cap := by
+      simp [LB.mustTruncate, hfix, LB.len] at ht; exact ht
+    cases hd : LB.drain (lb.pos - k) lb.pos .forward lb with
+    | error e => simp [LM.bind_apply, LM.get, h1, h2, ht, hd] at h
+    | ok v =>
+      obtain ⟨y, l1, n1⟩ := v
+      have hd' := hd
+      unfold LB.drain at hd'
+      split at hd'
+      · rename_i x y' z hs3
+        cases hd'
+        obtain ⟨hbuf, hx, hy⟩ := split3_ok hs3
+        have hlen : blen (x ++ z) = blen lb.buf - k := by
+          have e1 : blen lb.buf = blen x + blen y + blen z := by rw [hbuf]; simp; omega
+          simp; omega
+        cases hy2 : LB.yank S U t 1 { lb with buf := x ++ z, pos := lb.pos - k } with
+        | error e => simp [LM.bind_apply, LM.get, h1, h2, ht, hd, LM.setPos, hy2] at h
+        | ok v2 =>
+          obtain ⟨r2, l2, n2⟩ := v2
+          simp [LM.bind_apply, LM.get, h1, h2, ht, hd, LM.setPos, hy2] at h
+          obtain ⟨rfl, rfl, _⟩ := h
+          refine ⟨rfl, ?_⟩
+          rcases C03_capacity_yank S U t 1 { lb with buf := x ++ z, pos := lb.pos - k } l2 r2 n2 hfix hy2 with ⟨_, hl2, _⟩ | hf2
+          · rw [hl2]
+            show blen (x ++ z) ≤ lb.cap
+            rw [hlen]; omega
+          · exact hf2
+      · cases hd'
+
 /-! ### no panic from a well-formed state, and the cursor stays on a character boundary -/
 
 theorem C03_moveBufferStart_total_wf (S : Segmenter) (U : UData) (lb : LB) :
@@ -459,9 +504,12 @@ theorem C03_yankPop_total_wf (S : Segmenter) (U : UData) (k : Nat) (t : Text) (l
     rw [hx]; exact isBoundary_mid x z
   obtain ⟨r, lb', ns, hy, hwf⟩ := C03_yank_total_wf S U t 1 _ hwf1
   have hng : ¬ k > lb.pos := by omega
-  refine ⟨r, lb', [.del (lb.pos - k) y .forward] ++ ns, ?_, hwf⟩
+  have hng2 : ¬ k > lb.len := by have := h.le_len; have : lb.len = blen lb.buf := rfl; omega
   unfold LB.yankPop
-  simp [LM.bind_apply, LM.get, hng, hd, LM.setPos, hy]
+  by_cases ht : lb.mustTruncate (lb.len - k + blen t) = true
+  · exact ⟨none, lb, [], by simp [LM.bind_apply, LM.get, hng, hng2, ht, LM.pure_apply], h⟩
+  · refine ⟨some (r.getD false), lb', [.del (lb.pos - k) y .forward] ++ ns, ?_, hwf⟩
+    simp [LM.bind_apply, LM.get, hng, hng2, ht, hd, LM.setPos, hy]
 
 /-- `set_pos(a)` then `drain_around(a..b, cursor)` (the repaired whole-line / whole-buffer kills): total -/
 theorem C03_drainAround_total_wf (S : Segmenter) (U : UData) (a b c : Nat) (lb : LB)
